@@ -4,7 +4,13 @@ import framework
 
 
 def table_of(ctx):
-    return (ctx.generated or {}).get("table", [])
+    """the command table of the tree under test, for the input generators; when the translator could not read one (the tie is then
+    reported as broken) the snapshot of the pinned tree keeps the generators running"""
+    t = (ctx.generated or {}).get("table", [])
+    if not t:
+        with open(os.path.join(VERIF, "spec", "fallback_table.json")) as f:
+            t = json.load(f)["table"]
+    return t
 
 
 def findings_for(pid):
